@@ -330,10 +330,14 @@ func (ex *Explorer) merge(r *PathResult) {
 		ex.vioSeen[v.Assert]++
 		if ex.vioSeen[v.Assert] <= 3 {
 			rep.Violations = append(rep.Violations, v)
-		} else if v.Replayable {
-			// keep at most three per assertion, but prefer models the native replay can rebuild
+		} else if v.Replayable || len(v.Weak) == 0 {
+			// keep at most three per assertion, but prefer models the native replay can rebuild,
+			// and violations that do not depend on an uninterpreted stand-in over ones that do
 			for i, old := range rep.Violations {
-				if old.Assert == v.Assert && !old.Replayable {
+				if old.Assert != v.Assert {
+					continue
+				}
+				if (v.Replayable && !old.Replayable) || (len(v.Weak) == 0 && len(old.Weak) > 0) {
 					rep.Violations[i] = v
 					break
 				}
